@@ -1,9 +1,176 @@
-(* LIBBUILD -- the library constructors as Gallina build programs (not one of the 19 properties; see harness/libbuild.py). *)
-From Coq Require Import ZArith List Bool.
+(* LIBBUILD -- the library constructors as Gallina build programs (coq/LibBuild/Model.v); NOT one of the 19 properties
+   (harness/libbuild.py runs the tie with the real constructors).  Theorems only, each closed by `exact <lemma>`.
+
+   Vocabulary: `rep_code_prog D init anc cycles` = construct_repetition_code_circuit as a Core build program for the
+   description record D (C09.Model.rdesc); `unrolled_leaves env p` = the leaves of `listing env (apply_modifiers env 1
+   (run_prog env p))` in listing order; `tags_of q ls` = acquisition tags of the measurements of qubit q in ls, in order;
+   `want_anc_tags cycles` = heralded :: (if cycles = 0 then [final] else parity^cycles) with the harness' tag numbers;
+   `n_ops p` / `n_meas p` = number of leaves / measurement leaves of p with every block counted count-many times;
+   `unroll_small_prog p` (C06) = every block times its count has at most 4999 entries, counts >= 1: the hypothesis under
+   which the documented depth limit (C02) does not truncate the unrolled listing -- beyond it the statements are false;
+   `size_cond D cycles` = its numeric form for rep_code_prog; `desc_ok D` = index lists duplicate-free, data and ancillas
+   disjoint and among the qubits. *)
+From Coq Require Import ZArith List Bool Permutation.
 Import ListNotations.
-From QCE Require Import Base.Prelude Core.Model Core.BfsWf C09.Model LibBuild.Model LibBuild.Proofs.
+From QCE Require Import Base.Prelude Core.Model Core.Run Core.BfsWf Lib.Run C06.Proofs C09.Model C10.Model C10.Run C10.Proofs C13.Model
+  LibBuild.Model LibBuild.Proofs.
+From Gen Require Import Layouts.
 Open Scope Z_scope.
 
+(* ---- (a) structure *)
 Theorem LibBuild_rep_code_wf : forall env D init anc cycles, wf_op (OComp 1 (run_prog env (rep_code_prog D init anc cycles))).
 Proof. exact rep_code_wf. Qed.
 Print Assumptions LibBuild_rep_code_wf.
+
+Theorem LibBuild_rep_code_unrolled_wf : forall env D init anc cycles,
+  wf_op (OComp 1 (apply_modifiers env 1 (run_prog env (rep_code_prog D init anc cycles)))).
+Proof. exact rep_code_unrolled_wf. Qed.
+Print Assumptions LibBuild_rep_code_unrolled_wf.
+
+Theorem LibBuild_simplified_wf : forall env D init anc cycles, wf_op (OComp 1 (run_prog env (simplified_prog D init anc cycles))).
+Proof. exact simplified_wf. Qed.
+Print Assumptions LibBuild_simplified_wf.
+
+Theorem LibBuild_calibration_wf : forall env qs qutrit, wf_op (OComp 1 (run_prog env (calibration_prog qs qutrit))).
+Proof. exact calibration_wf. Qed.
+Print Assumptions LibBuild_calibration_wf.
+
+(* the constructors never look at the duration setting *)
+Theorem LibBuild_run_prog_env_indep : forall e1 e2 p, run_prog e1 p = run_prog e2 p.
+Proof. exact run_prog_env_indep. Qed.
+Print Assumptions LibBuild_run_prog_env_indep.
+
+(* the 1 / 2 / 3 split: from four cycles on the repeated block's count is cycles - 3 *)
+Theorem LibBuild_qec_split_bulk : forall D cycles, 3 < cycles ->
+  circuit_qec_with_detectors D cycles = [CSub 2 (first_sub D); CSub (cycles - 3) (second_sub D); CSub 1 (third_sub D)].
+Proof. exact qec_split_bulk. Qed.
+Print Assumptions LibBuild_qec_split_bulk.
+
+Theorem LibBuild_qec_split_small : forall D,
+  circuit_qec_with_detectors D 0 = map (meas T_FINAL) (r_anc D)
+  /\ circuit_qec_with_detectors D 1 = [CSub 1 (third_sub D)]
+  /\ circuit_qec_with_detectors D 2 = [CSub 1 (first_sub D); CSub 1 (third_sub D)]
+  /\ circuit_qec_with_detectors D 3 = [CSub 2 (first_sub D); CSub 1 (third_sub D)].
+Proof. exact qec_split_small. Qed.
+Print Assumptions LibBuild_qec_split_small.
+
+Theorem LibBuild_qec_rounds_total : forall cycles, 1 <= cycles -> (n_first cycles + n_second cycles + 1)%nat = Z.to_nat cycles.
+Proof. exact qec_rounds_total. Qed.
+Print Assumptions LibBuild_qec_rounds_total.
+
+(* ---- counts: closed formulas, every description and cycle count *)
+Theorem LibBuild_n_meas : forall D init anc cycles, 0 <= cycles ->
+  n_meas (rep_code_prog D init anc cycles)
+  = (length (r_qubits D) + (if (cycles =? 0)%Z then 1 else Z.to_nat cycles) * length (r_anc D) + length (r_data D))%nat.
+Proof. exact n_meas_rep_code. Qed.
+Print Assumptions LibBuild_n_meas.
+
+Theorem LibBuild_n_ops : forall D init anc cycles, 0 <= cycles ->
+  n_ops (rep_code_prog D init anc cycles)
+  = (init_quiet D init anc + length (r_qubits D)
+     + (if (cycles =? 0)%Z then length (r_anc D)
+        else n_first cycles * (sub_quiet D true 0 + length (r_anc D))
+             + n_second cycles * (sub_quiet D true 1 + length (r_anc D))
+             + (sub_quiet D false 0 + length (r_anc D)))
+     + length (r_data D) + (length (r_anc D) + length (r_data D)))%nat.
+Proof. exact n_ops_rep_code. Qed.
+Print Assumptions LibBuild_n_ops.
+
+Theorem LibBuild_unrolled_n_ops : forall env p, unroll_small_prog p -> length (unrolled_leaves env p) = n_ops p.
+Proof. exact unrolled_n_ops. Qed.
+Print Assumptions LibBuild_unrolled_n_ops.
+
+Theorem LibBuild_unrolled_n_meas : forall env p, unroll_small_prog p -> length (filter has_acq (unrolled_leaves env p)) = n_meas p.
+Proof. exact unrolled_n_meas. Qed.
+Print Assumptions LibBuild_unrolled_n_meas.
+
+Theorem LibBuild_rep_code_small : forall D init anc cycles, size_cond D cycles -> unroll_small_prog (rep_code_prog D init anc cycles).
+Proof. exact rep_code_small. Qed.
+Print Assumptions LibBuild_rep_code_small.
+
+(* ---- (b) listing order and tags *)
+(* any program: the unrolled block of the first command is listed before everything else *)
+Theorem LibBuild_first_block_first : forall env c0 rest, unroll_small_prog (c0 :: rest) ->
+  exists A B, map e_leaf (listing env (apply_modifiers env 1 (run_prog env (c0 :: rest)))) = A ++ B
+              /\ Permutation A (cmd_expanded c0) /\ Permutation B (prog_expanded rest).
+Proof. exact unrolled_first_block. Qed.
+Print Assumptions LibBuild_first_block_first.
+
+Theorem LibBuild_anc_tags : forall env D init anc cycles a,
+  desc_ok D -> 0 <= cycles -> unroll_small_prog (rep_code_prog D init anc cycles) -> In a (r_anc D) ->
+  tags_of a (unrolled_leaves env (rep_code_prog D init anc cycles)) = want_anc_tags cycles.
+Proof. exact anc_tags. Qed.
+Print Assumptions LibBuild_anc_tags.
+
+Theorem LibBuild_data_tags : forall env D init anc cycles q,
+  desc_ok D -> 0 <= cycles -> unroll_small_prog (rep_code_prog D init anc cycles) -> In q (r_data D) ->
+  tags_of q (unrolled_leaves env (rep_code_prog D init anc cycles)) = [T_HERALDED; T_FINAL].
+Proof. exact data_tags. Qed.
+Print Assumptions LibBuild_data_tags.
+
+(* what C13's multi_round_tags assumes per block *)
+Theorem LibBuild_anc_tags_block : forall env D init anc cycles a,
+  desc_ok D -> 0 <= cycles -> unroll_small_prog (rep_code_prog D init anc cycles) -> In a (r_anc D) ->
+  tags_of a (unrolled_leaves env (rep_code_prog D init anc cycles)) = map z_of_tag (block_tags cycles).
+Proof. exact anc_tags_block. Qed.
+Print Assumptions LibBuild_anc_tags_block.
+
+(* ---- the chain description of every distance *)
+Theorem LibBuild_chain_desc_ok : forall d rf, desc_ok (desc_of_chain d rf).
+Proof. exact chain_desc_ok. Qed.
+Print Assumptions LibBuild_chain_desc_ok.
+
+Theorem LibBuild_chain_round_len : forall k rf,
+  round_len (desc_of_chain (S (S k)) rf) true = (if rf then 10 * S (S k) else 7 * S (S k))%nat
+  /\ round_len (desc_of_chain (S (S k)) rf) false = (7 * S (S k) - 1)%nat.
+Proof. exact chain_round_len. Qed.
+Print Assumptions LibBuild_chain_round_len.
+
+Theorem LibBuild_chain_anc_tags : forall env d rf init anc cycles a,
+  (2 <= d)%nat -> 10 * Z.of_nat d <= 4999 -> 0 <= cycles -> (Z.of_nat d + 2) * Z.max 2 (cycles - 3) <= 4999 ->
+  In a (evens_from 1 (d - 1)) ->
+  tags_of a (unrolled_leaves env (rep_code_prog (desc_of_chain d rf) init anc cycles)) = want_anc_tags cycles.
+Proof. exact chain_anc_tags. Qed.
+Print Assumptions LibBuild_chain_anc_tags.
+
+Theorem LibBuild_chain_data_tags : forall env d rf init anc cycles q,
+  (2 <= d)%nat -> 10 * Z.of_nat d <= 4999 -> 0 <= cycles -> (Z.of_nat d + 2) * Z.max 2 (cycles - 3) <= 4999 ->
+  In q (evens_from 0 d) ->
+  tags_of q (unrolled_leaves env (rep_code_prog (desc_of_chain d rf) init anc cycles)) = [T_HERALDED; T_FINAL].
+Proof. exact chain_data_tags. Qed.
+Print Assumptions LibBuild_chain_data_tags.
+
+Theorem LibBuild_chain_n_meas : forall d rf init anc cycles, 0 <= cycles ->
+  n_meas (rep_code_prog (desc_of_chain d rf) init anc cycles)
+  = ((2 * d - 1) + (if (cycles =? 0)%Z then 1 else Z.to_nat cycles) * (d - 1) + d)%nat.
+Proof. exact chain_n_meas. Qed.
+Print Assumptions LibBuild_chain_n_meas.
+
+Theorem LibBuild_chain_n_ops : forall d init anc cycles, (2 <= d)%nat -> 0 <= cycles -> length init = d -> (length anc <= d - 1)%nat ->
+  Z.of_nat (n_ops (rep_code_prog (desc_of_chain d true) init anc cycles))
+  = (if cycles =? 0 then 9 * Z.of_nat d + Z.of_nat (length anc) - 2
+     else 16 * Z.of_nat d + Z.of_nat (length anc) - 2 + 11 * Z.of_nat d * (cycles - 1) + Z.max 0 (cycles - 3)).
+Proof. exact chain_n_ops. Qed.
+Print Assumptions LibBuild_chain_n_ops.
+
+(* ---- every contiguous sub-chain of the three shipped layouts (82 descriptions x refocusing), cycles up to 457 *)
+Theorem LibBuild_layouts_anc_tags : forall env L ch rf init anc cycles a, In (L, ch) all_layout_subchains -> 0 <= cycles <= 457 ->
+  In a (r_anc (desc_of_layout L ch rf)) ->
+  tags_of a (unrolled_leaves env (rep_code_prog (desc_of_layout L ch rf) init anc cycles)) = want_anc_tags cycles.
+Proof. exact layouts_anc_tags. Qed.
+Print Assumptions LibBuild_layouts_anc_tags.
+
+Theorem LibBuild_layouts_data_tags : forall env L ch rf init anc cycles q, In (L, ch) all_layout_subchains -> 0 <= cycles <= 457 ->
+  In q (r_data (desc_of_layout L ch rf)) ->
+  tags_of q (unrolled_leaves env (rep_code_prog (desc_of_layout L ch rf) init anc cycles)) = [T_HERALDED; T_FINAL].
+Proof. exact layouts_data_tags. Qed.
+Print Assumptions LibBuild_layouts_data_tags.
+
+(* ---- (c) partial: the C10 certificate on the constructor programs of the small chains listed in Cert.cert_inputs *)
+Theorem LibBuild_chain_no_overlap_partial : forall x, In x cert_inputs -> forall env, env_nonneg env -> env_parity env ->
+  let ns := run_prog env (cert_prog x) in
+  no_overlap (o_ops (model_obs env ns)) = true /\ barrier_clear (o_ops (model_obs env ns)) = true
+  /\ no_overlap (o_ops (model_obs env (apply_modifiers env 1 ns))) = true
+  /\ barrier_clear (o_ops (model_obs env (apply_modifiers env 1 ns))) = true.
+Proof. exact chain_no_overlap_partial. Qed.
+Print Assumptions LibBuild_chain_no_overlap_partial.
